@@ -4,7 +4,42 @@ import json, os, subprocess
 V = os.path.dirname(os.path.dirname(os.path.abspath(__file__)))
 props = [json.loads(l) for l in open(os.path.join(V, "properties.jsonl"))]
 
+MACHINE_NOTE = 'The reference machine (spec/Machine.tla + Values.tla) is a transcription of the intended semantics checked for totality (NotStuck) by TLC; where no language document exists the pinned behaviour is the definition. Numbers outside the modelled domain are not compared.'
 CHECKS = {
+ "C05": dict(
+    level="model_checking",
+    text="Gen.tla generates programs token by token (operator expressions in reverse Polish order over 13 operand values of every kind; "
+         "control-flow programs with if/else, while, for, break, continue, blocks, functions, return) and Machine.tla executes each one in the "
+         "same TLC behaviour, so TLC visits every program of the exhaustive budgets with its complete run and random larger ones in simulation; "
+         "every program is pretty-printed with minimal parentheses from the specification's precedence table and run on the real interpreter; "
+         "printed lines, outcome, error class, message and trace must be equal.",
+    note=MACHINE_NOTE, technique="TLA+ reference machine + TLC-generated programs (exhaustive + simulation) replayed on the implementation", design="4 C05"),
+ "C06": dict(
+    level="model_checking",
+    text="Variables are store cells in Machine.tla, closures capture the environment of cells, and name resolution is done statically by the "
+         "generator exactly as the single-pass compiler does (declaration ids in every variable node). TLC enumerates / simulates programs with "
+         "blocks, functions, lambdas that read and write captured variables, loops and shadowing; a scenario family (1008 programs) crosses the "
+         "capturing scope (block, if, function, while, for, try, catch, finally) x preceding locals x capture kind x exit path (fall-through, break, "
+         "continue, return, throw, failing built-in) x escape route, with stack reuse before the closure is called. Replayed on checked and optimised builds.",
+    note=MACHINE_NOTE, technique="TLA+ reference machine + TLC-generated programs + scenario products replayed on the implementation", design="4 C06"),
+ "C08": dict(
+    level="model_checking",
+    text="Machine.tla delivers completions (throw / return / break / continue) structurally: to the innermost try whose body is active, through every "
+         "finally exactly once. TLC generates programs nesting try/catch/finally with loops, functions, explicit throws, failing built-ins and throws from "
+         "callees (exhaustive small budget + simulation), and 108 scenarios cross raise site x handler shape. The ideal run records trigger events for the "
+         "six recorded try/finally findings; a differing behaviour is attributed to a finding only if its ideal run contains that finding's trigger, "
+         "every other program must agree exactly (output, outcome, error class, message, trace lines).",
+    note=MACHINE_NOTE + " Six genuine defects of try/finally compilation are recorded in known_findings.json (not small repairs).",
+    technique="TLA+ reference machine + TLC-generated programs + scenario products replayed on the implementation; findings attributed by trigger", design="4 C08"),
+ "C09": dict(
+    level="model_checking",
+    text="Machine.tla keeps one frame stack (with its own control stack, cells and handlers) per fiber and models call / yield / return / finish, the "
+         "argument and result transfer, and the as-built error cases (finished, already called, wrong argument count, yield at module level, the is_new "
+         "quirk). Every one-fiber program with a body of <= 2 actions (11 kinds) under two schedules, plus seeded products of 2-3 fibers x bodies x main "
+         "schedules (yields from nested frames, try/finally across a switch, closures shared with a suspended fiber, fibers calling fibers), are run "
+         "through the machine by TLC and replayed on checked and optimised builds.",
+    note=MACHINE_NOTE + " Scenario products are built outside TLC (same static resolution as the compiler); the expectation always comes from the TLC run of Machine.tla.",
+    technique="TLA+ reference machine (TLC) + scenario products replayed on the implementation", design="4 C09"),
  "C04": dict(
     level="model_checking",
     text="Bytecode.tla explores, per emitted function, the complete control-flow graph of the compiler's actual output as a TLC "
